@@ -93,8 +93,18 @@ PROFILES = {
                   steps=50, w_advance=5, usage=True),
     "proto": dict(apps=["a1"], sides=["s1", "s2"], names=["1", "x"], client_mbox=["m1"], steps=50,
                   w_malformed=6.0, extra_keys=True),
-    "alloc": dict(apps=["a1", "a2"], sides=["s1", "s2"], names=["1", "2", "3", "10", "x", "007"], client_mbox=["m1"],
-                  steps=50, w_allocate=6),
+    "alloc": dict(apps=["a1", "a2"], sides=["s1", "s2"], names=["1", "2", "3", "10", "x", "007", "0"], client_mbox=["m1"],
+                  steps=40, type_weights=dict(allocate=6, release=2, close=1, add=1),
+                  prefill_spec=dict(class1=[0, 5, 8, 9, 9], class2=[0, 0, 3], odd=["007", "0", "x", "1.0"])),
+    # scripted clients: wormhole-like flows (allocate/claim/open/add/release/close) with
+    # reconnects, re-sent commands, a second connection of one side, intruders, sweeps, restarts
+    "script": dict(scripted=True, apps=["a1"], sides=["s1", "s2", "s3"], names=["1", "x"], client_mbox=["m1"],
+                   steps=70, conns=("c1", "c2", "c3", "c4", "c5"), w_stop=0.5, w_fault=0),
+    "script2": dict(scripted=True, apps=["a1", "a2"], sides=["s1", "s2", "s3"], names=["1", "x"], client_mbox=["m1"],
+                    steps=70, conns=("c1", "c2", "c3", "c4", "c5"), w_stop=1.0, w_fault=1.0, usage=True),
+    "allocfull": dict(apps=["a1"], sides=["s1", "s2"], names=["1", "10", "100"], client_mbox=["m1"],
+                      steps=25, type_weights=dict(allocate=8, release=2, close=1, add=1), final_quiesce=False,
+                      prefill_spec=dict(class1=[9], class2=[89, 90, 90], class3=[0, 0, 899, 900])),
 }
 
 # ---------------------------------------------------------------------------
@@ -107,39 +117,77 @@ def _p(clauses, mc, sim, profiles, pprops, pairs=(), pairclause=None):
 
 PLAN = {
     "C01": _p(["C01.a", "C01.b"], [("core", 9, 12), ("apps", 8, 11)], ["core", "time"],
-              ["mailbox", "apps", "time"], ["P01"]),
+              ["mailbox", "apps", "time", "script", "script2"], ["P01"]),
     "C02": _p(["C02.a", "C02.b"], [("core", 9, 12), ("time", 8, 11)], ["core", "time"],
-              ["fanout", "mailbox", "time"], ["P02"]),
+              ["fanout", "mailbox", "time", "script", "script2"], ["P02"]),
     "C03": _p(["C03.a", "C03.b", "C03.c", "C03.d"], [("core", 9, 12), ("apps", 8, 11)], ["core", "apps"],
-              ["nameplate", "apps", "crowd"], ["P03"]),
+              ["nameplate", "apps", "crowd", "script", "script2"], ["P03"]),
     "C05": _p(["C05.a", "C05.b", "C05.c", "C05.keep"], [("core", 9, 12)], ["core"],
-              ["crowd", "mailbox"], ["P05"]),
+              ["crowd", "mailbox", "script", "script2"], ["P05"]),
     "C06": _p(["C06.frame"], [("apps", 8, 11)], ["apps"], ["apps"], ["P06"],
               pairs=[("iso", 60, 3000)], pairclause="C06.pair"),
     "C07": _p(["C07.a", "C07.b", "C07.c", "C07.d", "C07.e"], [("core", 9, 12), ("apps", 8, 11)],
-              ["core", "apps"], ["nameplate", "apps", "crowd"], ["P07"]),
+              ["core", "apps"], ["nameplate", "apps", "crowd", "script", "script2"], ["P07"]),
     "C08": _p(["C08.a", "C08.b", "C08.c", "C08.d"], [("core", 9, 12)], ["core"],
-              ["mailbox", "nameplate"], ["P08"]),
-    "C04": _p(["C04.a", "C04.b", "C04.c"], [("alloc", 8, 11), ("allocnl", 8, 11)], ["core"],
-              ["alloc", "nameplate"], ["P04"]),
+              ["mailbox", "nameplate", "script", "script2"], ["P08"]),
+    "C04": dict(_p(["C04.a", "C04.b", "C04.c"], [("alloc", 8, 11), ("allocnl", 8, 11)], ["core"],
+                   ["alloc", "nameplate"], ["P04"]),
+                variants={"alloc": [dict(allow=True), dict(allow=False)]},
+                thorough_profiles=["allocfull"]),
     "C09": _p(["C09.a", "C09.b"], [("crash", 8, 11), ("crashu", 7, 10)], ["crash", "crashu"],
-              ["crash", "usage", "mailbox"], ["P09"]),
+              ["crash", "usage", "mailbox", "script2"], ["P09"]),
     "C10": _p(["C10.a", "C10.b", "C10.c", "C13.c"], [("crash", 8, 11), ("crashu", 7, 10)], ["crash", "crashu"],
               ["crash"], ["P10", "P13"], pairs=[("resume", 60, 3000)], pairclause="C10.resume"),
     "C11": _p([], [("time", 8, 11)], ["time"], [], ["P01", "P02"],
               pairs=[("restart", 60, 3000)], pairclause="C11.pair"),
     "C12": _p(["C12.a", "C12.b"], [("time", 8, 11), ("time2", 7, 10)], ["time", "time2"],
-              ["time", "fanout"], ["P12"]),
+              ["time", "fanout", "script", "script2"], ["P12"]),
     "C13": _p(["C13.a", "C13.b", "C13.c"], [("time", 8, 11), ("time2", 7, 10)], ["time", "time2"],
-              ["time", "crowd", "mailbox"], ["P13"]),
+              ["time", "crowd", "mailbox", "script", "script2"], ["P13"]),
     "C14": _p([], [("core", 9, 12)], ["core"], [], ["P03", "P07", "P08"],
               pairs=[("resend", 72, 3000)], pairclause="C14.pair"),
-    "C15": _p(["C15.a", "C15.b", "C15.c"], [("usage", 7, 10), ("usage7", 7, 10)], ["usage", "usage7"],
-              ["usage"], ["P15"]),
-    "C16": _p(["C16.a", "C16.b", "C16.c"], [("usage", 7, 10), ("usage7", 7, 10)], ["usage", "usage7"],
-              ["usage"], ["P16"]),
-    "C18": _p(["C18.a"], [("nolist", 8, 11), ("alloc", 8, 11), ("allocnl", 8, 11)], ["nolist"],
-              ["nameplate"], ["P18"], pairs=[("config", 60, 3000)], pairclause="C18.pair"),
+    "C15": dict(_p(["C15.a", "C15.b", "C15.c"], [("usage", 7, 10), ("usage7", 7, 10)], ["usage", "usage7"],
+                   ["usage", "crowd", "script2"], ["P15"]),
+                variants={"usage": [dict(usage=True, blur=0), dict(usage=True, blur=3)],
+                          "crowd": [dict(usage=True, blur=0)]}),
+    # blur intervals: minutes (tick = 60 s), seconds that do not divide a minute
+    # (tick = 1 s), and real-valued arrival times (tick = 1/100 s)
+    "C16": dict(_p(["C16.a", "C16.b", "C16.c"], [("usage", 7, 10), ("usage7", 7, 10)], ["usage", "usage7"],
+                   ["usage"], ["P16"]),
+                variants={"usage": [dict(usage=True, blur=3), dict(usage=True, blur=60 * 24), dict(usage=True, blur=7, unit=1),
+                                    dict(usage=True, blur=45, unit=1), dict(usage=True, blur=61, unit=1),
+                                    dict(usage=True, blur=3600, unit=1), dict(usage=True, blur=100, unit="1/100"),
+                                    dict(usage=True, blur=700, unit="1/100")]}),
+    "C18": dict(_p(["C18.a"], [("nolist", 8, 11), ("alloc", 8, 11), ("allocnl", 8, 11)], ["nolist"],
+                   ["nameplate"], ["P18"], pairs=[("config", 60, 3000)], pairclause="C18.pair"),
+                variants={"nameplate": [dict(allow=True), dict(allow=False), dict(allow=False, usage=True, blur=3)]}),
     "C17": _p(["C17.a", "C17.b", "C17.c", "C17.d", "C17.e", "C17.f"], [("proto", 7, 10), ("apps", 8, 11)],
-              ["proto"], ["proto", "apps"], ["P17"]),
+              ["proto"], ["proto", "apps", "script", "script2"], ["P17"]),
 }
+
+
+# ---------------------------------------------------------------------------
+# instances of spec/MBPair.tla (lock-step self-composition), per regime
+PAIR_BASE = dict(
+    AppB='"a1"', Spare='"cx"', Apps='{"a1"}', AppOrder='<- cAppOrder1', Sides='{"s1", "s2"}',
+    Conns='{"c1", "c2"}', Class1='<- cClass1', Class2='<- cClass2', Class3='<- cClass3',
+    LongNames='{"1000"}', OtherNames='{"x"}', ClientMbox='{"m1"}', GenMbox='<- cGen2', EXP='11', PERIOD='5',
+    AllowList='TRUE', UsageOn='TRUE', Blur='0', Welcome='"w0"', MsgIds='{"~"}', AddMsgs='<- cAdd1',
+    MoodSet='{"~"}', ClaimNames='{"1"}', PickSet='{"1", "2"}', AdvanceSteps='{5, 6}', MaxTime='17',
+    MaxMsgs='1', MaxDepth='8')
+PAIR_INST = {
+    "iso": dict(Apps='{"a1", "a2"}', AppOrder='<- cAppOrder2'),
+    "restart": dict(),
+    "resend": dict(Sides='{"s1", "s2", "s3"}', Conns='{"c1", "c2", "cx"}'),
+}
+
+
+def pair_cfg_text(regime, depth):
+    c = dict(PAIR_BASE)
+    c.update(PAIR_INST[regime])
+    c["MaxDepth"] = str(depth)
+    lines = ["SPECIFICATION PSpec", "CONSTANTS", '  Regime = "%s"' % regime]
+    for k, v in c.items():
+        lines.append("  %s %s" % (k, v) if v.startswith("<-") else "  %s = %s" % (k, v))
+    lines += ["CONSTRAINT PConstr", "VIEW PView", "INVARIANT PairInv", "CHECK_DEADLOCK FALSE"]
+    return "\n".join(lines) + "\n"
